@@ -28,6 +28,7 @@ var c17Ops = []string{
 	"BuildLogoutRequestDocument", "BuildLogoutURLRedirect", "BuildLogoutBodyPost", "BuildLogoutResponseDocument", "BuildLogoutResponseBodyPost",
 	"SignAuthnRequest", "SigningContext",
 	"ValidateEncodedResponse", "RetrieveAssertionInfo", "RetrieveAssertionInfo(assertion-signed)", "RetrieveAssertionInfo(encrypted)", "RetrieveAssertionInfo(damaged)",
+	"RetrieveAssertionInfo(compressed)", "RetrieveAssertionInfo(compressed2)",
 	"ValidateEncodedLogoutRequestPOST", "ValidateEncodedLogoutResponsePOST", "DecodeUnverifiedBaseResponse",
 	"Metadata", "MetadataWithSLO", "GetSigningCertBytes",
 }
@@ -70,6 +71,11 @@ func c17Directed(tier string) [][]uint64 {
 	for op := uint64(0); op < uint64(len(c17Ops)); op++ {
 		out = append(out, []uint64{1, 1, 1, op, 0, 0, 0, 1, 12, op})
 		out = append(out, []uint64{4, 0, 1, op, op, 1, 20, 21})
+	}
+	// concurrent validations of compressed messages
+	for st := uint64(1); st < 5; st++ {
+		out = append(out, []uint64{st, 1, 1, 17, 18, 1, 18, 17, 0, 17})
+		out = append(out, []uint64{st, 2, 0, 17, 0, 18, 0, 17, 0, 18})
 	}
 	return out
 }
@@ -166,6 +172,11 @@ func c17Run(r *core.Run) {
 	lp := world.GenLogout(t, o.IdP, fed, now, "LogoutResponse")
 	lp.Sign = world.PlainSigOpts(o.IdPKey, o.IdPCert)
 	env.msgs["logout-response"] = issue(lp)
+	// DEFLATE presentations (their own decoding path)
+	for _, kv := range [][2]string{{"compressed", "response"}, {"compressed2", "assertion-signed"}} {
+		raw, _ := decodeB64(env.msgs[kv[1]])
+		env.msgs[kv[0]] = world.B64(world.Deflate(raw, 6))
+	}
 	dm := []byte(env.msgs["response"])
 	dm[len(dm)/2] ^= 1
 	env.msgs["damaged"] = string(dm)
@@ -430,7 +441,7 @@ func c17Do(sp *saml2.SAMLServiceProvider, op string, env *c17Env, scribble bool)
 		case "ValidateEncodedResponse":
 			resp, err := sp.ValidateEncodedResponse(env.msgs["response"])
 			digest = respDigest(resp, err, scribble)
-		case "RetrieveAssertionInfo", "RetrieveAssertionInfo(assertion-signed)", "RetrieveAssertionInfo(encrypted)", "RetrieveAssertionInfo(damaged)":
+		case "RetrieveAssertionInfo", "RetrieveAssertionInfo(assertion-signed)", "RetrieveAssertionInfo(encrypted)", "RetrieveAssertionInfo(damaged)", "RetrieveAssertionInfo(compressed)", "RetrieveAssertionInfo(compressed2)":
 			key := "response"
 			if i := strings.Index(op, "("); i > 0 {
 				key = op[i+1 : len(op)-1]
